@@ -269,6 +269,15 @@ class Ctx:
     def check(self, name, inp):
         """run oracle `name` on JSON-like input `inp`; it returns a list of (clause, detail)"""
         self.count("oracle:" + name)
+        # oracles that declare themselves history-sensitive get the previous input of the same oracle as "before" (unless the
+        # caller supplied one): the oracle re-enacts it first, so whatever state leaked from it is part of the replayable input
+        if name in getattr(self, "history_oracles", ()) and isinstance(inp, dict):
+            last = self.__dict__.setdefault("_last_input", {})
+            mine = {k: v for k, v in inp.items() if k != "before"}
+            if "before" not in inp and name in last:
+                inp = dict(inp, before=[last[name]])
+            last[name] = mine
+            self.__dict__.setdefault("_history", {}).setdefault(name, []).append(mine)
         try:
             fails = self.oracles[name](inp)
         except Exception as e:  # an oracle crash is a harness bug, surface it loudly
@@ -319,10 +328,56 @@ def shrink_failure(ctx, f, known_findings):
                         return False
                 return True
         return False
-    small = shrink(f["input"], still)
+    # keys that describe the history of the process ("before": what was constructed earlier) are not shrunk: the shrinker
+    # runs in a process whose state is already what that history produced, so it would always find them dispensable
+    frozen = {k: v for k, v in f["input"].items() if k == "before"} if isinstance(f["input"], dict) else {}
+    if frozen:
+        rest = {k: v for k, v in f["input"].items() if k not in frozen}
+        small = dict(shrink(rest, lambda r: still({**r, **frozen})), **frozen)
+    else:
+        small = shrink(f["input"], still)
     fails = [x for x in (ctx.oracles[name](small) or []) if x[0] == clause]
     return {"oracle": name, "clause": clause, "detail": fails[0][1] if fails else f["detail"], "input": small,
             "original_input": f["input"]}
+
+
+def reproduces_fresh(prop, oracle, inp):
+    """does the oracle fail on this input in a *fresh* process?  (inputs of history-sensitive oracles may fail only
+    because of what ran earlier in this process)"""
+    import subprocess
+    import tempfile
+    fd, path = tempfile.mkstemp(suffix=".json", prefix="fresh_", dir=REPLAY_DIR)
+    try:
+        with os.fdopen(fd, "w") as f:
+            json.dump({"property": prop, "kind": "oracle", "oracle": oracle, "input": inp}, f, default=str)
+        r = subprocess.run([os.path.join(VERIF, "check"), prop, "--replay", path, "--no-build"], capture_output=True, text=True,
+                           cwd=VERIF, timeout=600)
+        return r.returncode == 1 and "VIOLATION" in r.stdout
+    except Exception:
+        return True          # cannot tell: keep what we have
+    finally:
+        if os.path.exists(path):
+            os.unlink(path)
+
+
+def settle_replay_input(ctx, shrunk):
+    """pick the input to store in the replay file: the shrunk one if it fails in a fresh process, else the original, else
+    the original preceded by the whole history of that oracle in this run"""
+    name = shrunk["oracle"]
+    if name not in getattr(ctx, "history_oracles", ()):
+        return shrunk
+    os.makedirs(REPLAY_DIR, exist_ok=True)
+    if reproduces_fresh(ctx.prop, name, shrunk["input"]):
+        return shrunk
+    orig = shrunk["original_input"]
+    if reproduces_fresh(ctx.prop, name, orig):
+        return dict(shrunk, input=orig, note="the shrunk input failed only in the searching process; the original is stored")
+    hist = ctx.__dict__.get("_history", {}).get(name, [])
+    core = {k: v for k, v in orig.items() if k != "before"}
+    idx = max((i for i, h in enumerate(hist) if h == core), default=len(hist))
+    full = dict(core, before=hist[:idx])
+    return dict(shrunk, input=full, note="stored with the whole history of this oracle in the run (the failure depends on "
+                                        "state accumulated over earlier calls)")
 
 
 def write_replay(prop, kind, payload):
